@@ -1398,7 +1398,17 @@ impl<'a> Parser<'a> {
         let mut members = vec![];
         while !self.check(&TokenKind::RBrace) && !self.is_at_end() {
             let member_start = self.current.span;
-            let member_id = self.parse_identifier()?;
+            // A member name is an identifier or a string literal: enum E { 'a-b' = 1 }
+            let member_id = if let TokenKind::String(s) = &self.current.kind {
+                let id = Identifier {
+                    name: s.clone(),
+                    span: self.current.span,
+                };
+                self.advance();
+                id
+            } else {
+                self.parse_identifier()?
+            };
             let initializer = if self.match_token(&TokenKind::Eq) {
                 Some(self.parse_assignment_expression()?)
             } else {
